@@ -103,3 +103,66 @@ Example load_error_pretty_cites_nonvacuous :
   c05r_verdict [109;121;32;114;117;108;101;115;47;114;46;116;115;103] [40;109;111;100;117;108;101;41;32;64;95;109;32;123;10;32;32;112;114;105;110;116;32;34;233;233;233;34;44;32;122;122;10;125;10] [85;110;100;101;102;105;110;101;100;32;118;97;114;105;97;98;108;101;32;122;122;32;97;116;32;40;50;44;32;49;54;41] (LCheck 9 (1, 15)) out (Some out) = 0 /\
   c05r_verdict [109;121;32;114;117;108;101;115;47;114;46;116;115;103] [40;109;111;100;117;108;101;41;32;64;95;109;32;123;10;32;32;112;114;105;110;116;32;34;233;233;233;34;44;32;122;122;10;125;10] [85;110;100;101;102;105;110;101;100;32;118;97;114;105;97;98;108;101;32;122;122;32;97;116;32;40;50;44;32;49;54;41] (LCheck 9 (1, 15)) (out ++ [32]) (Some out) = 73.
 Proof. vm_compute. repeat split. Qed.
+
+(* ---- THE LOADER.  Model/Loader.v `load X q fuel text` = the parser model followed by the checker model (query tables q from
+   tree-sitter), the error of a rejected text returned as the load error that is rendered (load_error_of_parse /
+   load_error_of_check).  load_spec: in terms of the observations `parse` / `check_file` that streams C07/C05p and C06 compare
+   with the implementation.  loader_error_rendering_cites: ONE statement - if the model's loader rejects text t with e, then e
+   is the parser model's error (variant v, location l of `parse X fuel t = PErr v l _`) or, for an accepted text, the checker
+   model's error (variant, location of `check_file q f = CkErr v l _`), and the pretty rendering of e - for every path,
+   source text and message line - cites exactly that location l as "path:row+1:col+1:".  loader_error_value: e is
+   load_error_of_parse / load_error_of_check of the error VALUE of the respective model. *)
+From TSG Require Import Model.Loader Proofs.Loader.
+
+Theorem load_spec : forall X q fuel text,
+  load X q fuel text =
+  match Parser.parse X fuel text with
+  | Parser.POk f pats =>
+      match Checker.check_file q f with
+      | Checker.CkOk f' => LdOk f' pats
+      | Checker.CkErr v l _ => LdErr (LCheck v l)
+      | Checker.CkPanic n => LdPanic n
+      end
+  | Parser.PErr v l _ => LdErr (LParse v l)
+  | Parser.PPanic n => LdPanic n
+  | Parser.PFuel => LdFuel
+  | Parser.PMiss => LdMiss
+  end.
+Proof. exact load_spec_lemma. Qed.
+
+Theorem loader_error_rendering_cites : forall X q fuel text e path src msg,
+  load X q fuel text = LdErr e ->
+  (exists v l p, Parser.parse X fuel text = Parser.PErr v l p /\ e = LParse v l /\
+     contains (cite path (fst l) (snd l)) (load_error_pretty path src msg e) = true) \/
+  (exists f pats v l ns, Parser.parse X fuel text = Parser.POk f pats /\ Checker.check_file q f = Checker.CkErr v l ns /\ e = LCheck v l /\
+     contains (cite path (fst l) (snd l)) (load_error_pretty path src msg e) = true).
+Proof.
+  intros X q fuel text e path src msg H. destruct (load_err_inv_lemma _ _ _ _ _ H) as [(v & l & p & Hp & ->)|(f & pats & v & l & ns & Hp & Hc & ->)].
+  - left. exists v, l, p. repeat split; [exact Hp|]. apply (load_error_pretty_cites_lemma path src msg (LParse v l)).
+  - right. exists f, pats, v, l, ns. repeat split; [exact Hp|exact Hc|]. apply (load_error_pretty_cites_lemma path src msg (LCheck v l)).
+Qed.
+
+Theorem loader_error_value : forall X q fuel text e,
+  load X q fuel text = LdErr e ->
+  (exists pe, Parser.parse_into_file X fuel (Parser.init_state text) = Parser.RErr pe /\ e = load_error_of_parse pe) \/
+  (exists a s ce, Parser.parse_into_file X fuel (Parser.init_state text) = Parser.ROk a s /\
+                  Checker.check_file_ck (fun l => l) q (Parser.file_of_acc a) = Err ce /\ e = load_error_of_check ce).
+Proof. exact load_err_value_lemma. Qed.
+
+(* non-vacuity: the two texts of load_error_pretty_example_A / _B above, loaded by the model: the errors are the ones whose real
+   renderings are quoted there (Undefined variable zz at (2, 16); Unexpected end of file at (2, 1)) *)
+Definition lex_ext : Parser.ext :=
+  {| Parser.x_alpha := fun _ => false; Parser.x_alnum := fun _ => false; Parser.x_ws := fun _ => false;
+     Parser.x_query := fun _ _ => Some (Parser.QOk 1 (Some 1)); Parser.x_merged := fun _ => Some true;
+     Parser.x_regex := fun _ => Some true |}.
+Definition lex_q : Checker.query_tables :=
+  {| Checker.qt_stanza_names := [[[95;109]; Checker.FULL_MATCH]]; Checker.qt_file_names := [[95;109]; Checker.FULL_MATCH];
+     Checker.qt_file_quants := [[Ast.QOne; Ast.QOne]]; Checker.qt_nullable := [] |}.
+Example loader_error_nonvacuous :
+  let tA := [40;109;111;100;117;108;101;41;32;64;95;109;32;123;10;32;32;112;114;105;110;116;32;34;233;233;233;34;44;32;122;122;10;125;10] in
+  let tB := [40;109;111;100;117;108;101;41;32;64;95;109;32;123;10] in
+  load lex_ext lex_q (Parser.fuel_of tA) tA = LdErr (LCheck 9 (1, 15)) /\
+  load lex_ext lex_q (Parser.fuel_of tB) tB = LdErr (LParse 10 (1, 0)) /\
+  contains (cite [114] 1 15) (load_error_pretty [114] tA [] (LCheck 9 (1, 15))) = true /\
+  contains (cite [114] 1 0) (load_error_pretty [114] tB [] (LParse 10 (1, 0))) = true.
+Proof. vm_compute. repeat split. Qed.
